@@ -24,6 +24,7 @@ EXPLANATION = (
     "changed by the AP writer minus keys restored/popped by the reconstructor == {original_meta}. Byte equality of "
     "files is NOT decided; (D6) the original-channel list string: the writer emits maximal runs of consecutive channels as inclusive `first:last` joined by ',' and the parser expands `a:b` to arange(a, b + 1) in the written order, with the same separators; snsSaveChanSubset is `0:<nSavedChans - 1>`."
     " (D8) per-shank output files: a file the writer appends to (handle opened once, or re-opened with 'ab' for every chunk) is emptied by the prepare step (open 'w' / write_bytes / unlink); touch() or append-mode opens keep what an earlier run left."
+    ' (D3 / D4 / D4b as built) np.take(.., axis=1) is a gather; a frame gathered with concatenate(chns) and cut at the cumulative channel counts is the per-shank split; reconstruction as take(stack of shank files, argsort(destination channels)) is the scatter.'
 )
 ASSUMPTIONS = [
     "numpy astype(<int>) truncates toward zero; round/rint/around round to nearest (model table)",
